@@ -89,7 +89,7 @@ def diff_signature(exp, got, alt_cell=None):
                 if alt_cell == (y, x) and g == R.START:
                     continue
                 sig.add(f"{pix_class(y, x, H, W)}:{NAMES[exp[y][x]]}->{NAMES.get(g, 'other')}")
-    return "+".join(sorted(sig)[:4])
+    return "+".join(sorted(sig))  # the complete set: extra damage on top of a known defect gives a new key
 
 
 _CODE2CHAR = {(k[0] << 16) | (k[1] << 8) | k[2]: v for k, v in R.ASCII.items()}
